@@ -4,4 +4,5 @@ let lookup (p : string) : Model.val0 -> Model.val0 =
   | "C05" -> Model.run_C05
   | "C17" -> Model.run_C17
   | "C08" -> Model.run_C08
+  | "C13" -> Model.run_C13
   | _ -> failwith ("unknown property " ^ p)
